@@ -141,7 +141,7 @@ def gen_export(r, rich=False, pre=False, many=False):
         if isinstance(c.get("max_size"), int) and isinstance(c.get("min_size"), int) and c["min_size"] > c["max_size"]:
             c["min_size"] = c["max_size"]
         if r.random() < 0.6:
-            c["fields"]["room_factor"] = r.choice([1, 1.5, 2, 2.5, 0.5, 1.2, "big", None, 3])
+            c["fields"]["room_factor"] = r.choice([1, 1.5, 2, 2.5, 0.5, 1.2, "big", None, 3, 0, 0.0])
         if r.random() < 0.5:
             c["fields"]["room_offset"] = r.choice([0, 1, 2.5, 0.5, -1, "x", 4])
         c["fields"]["room"] = "Wald"
@@ -716,6 +716,9 @@ def lines_cdedb_read(cases, workdir, stream):
                                 else:
                                     att += 1
                         want = [max(0, mn - att), max(0, mx - att), (att + ins) != 0, att + ins]
+                        if ci >= len(ok["courses"]):
+                            probs.append(f"course {cid}: missing from the reader's result")
+                            continue
                         got = [ok["courses"][ci][2], ok["courses"][ci][3], ok["courses"][ci][7], len(ok["courses"][ci][8])]
                         if want != got:
                             probs.append(f"course {cid}: expected [min,max,fixed,#hidden] {want}, reader {got}")
@@ -1031,6 +1034,26 @@ def stream_cli_simple(seed, tier, workdir, stream):
                  {"name": "Seminarraum", "capacity": rooms[2], "quantity": 1}]
         cases.append({"doc": {"format": "X-coursedata-simple", "version": "1.0", "participants": parts, "courses": courses},
                       "rooms": rooms, "rooms_file": True, "kinds": kinds, "threads": r.choice([1, 2]), "print": r.random() < 0.5, "stale": False, "output": True})
+    # a rooms file that offers NO room at all (empty list, or only kinds of quantity 0): the room check is on,
+    # with zero rooms — only assignments in which no course needs a room can be reported
+    for k in range(scale(tier, 4, 40)):
+        doc, _ = gen_simple(r, rooms_mode=0)
+        kinds = [] if k % 2 == 0 else [{"name": f"K{j}", "capacity": r.choice([3, 5, 10]), "quantity": 0} for j in range(r.randint(1, 3))]
+        cases.append({"doc": doc, "rooms": [], "rooms_file": True, "kinds": kinds, "threads": r.choice([1, 2]), "print": r.random() < 0.5, "stale": False, "output": True})
+    # a course without places (num_max 0) that takes place with its instructor only, the instructor having own
+    # choices none of which is free of charge (theoretical maximum vs achieved score)
+    for k in range(scale(tier, 4, 40)):
+        doc, rooms = gen_simple(r, rooms_mode=1)
+        if len(doc["courses"]) >= 2 and len(doc["participants"]) >= 2:
+            free = [p for p in range(len(doc["participants"])) if not any(p in co["instructors"] for co in doc["courses"])]
+            if free:
+                p_ = free[0]
+                c0 = doc["courses"][0]
+                c0["num_max"] = 0; c0["num_min"] = 0; c0["instructors"] = [p_]
+                doc["participants"][p_]["choices"] = [{"course": 1, "penalty": r.choice([1, 2, 3])}]
+                for q in doc["participants"]:
+                    q["choices"] = [ch for ch in q["choices"] if ch["course"] != 0] or ([{"course": 1, "penalty": 0}] if q is not doc["participants"][p_] else q["choices"])
+        cases.append({"doc": doc, "rooms": rooms, "threads": r.choice([1, 2]), "print": r.random() < 0.5, "stale": False, "output": True})
     # very large instances: several hundred participants (f32 effects in the quality figures)
     for _ in range(scale(tier, 2, 8)):
         np_ = r.randint(340, 520)
@@ -1494,7 +1517,7 @@ def stream_cli_fault(seed, tier, workdir, stream):
     # a simple instance (FAULT_SIMPLE) and an export (TestAka) that certainly have a solution
     for fmt in ["simple", "cde"]:
         for fault in ["ok", "missing-dir", "is-dir", "name-too-long", "notdir-component", "dev-full", "readonly-dir", "fsize-limit", "stale-longer",
-                      "bad-option-before-output"]:
+                      "bad-option-before-output", "empty-output-path"]:
             for pr in [False, True]:
                 cases.append({"fmt": fmt, "fault": fault, "print": pr, "limit": r.choice([1, 50, 200])})
             # the listing's consumer has gone away (--print into a pipe whose read end is closed): the program
@@ -1541,6 +1564,8 @@ def lines_cli_fault(cases, workdir, stream, binary):
                     fault = "readonly-dir-as-root"
             elif fault == "stale-longer":
                 open(outp, "w").write("{" + " " * 5000 + "\"old\": true}" + "\n" * 100)
+            elif fault == "empty-output-path":
+                outp = ""          # e.g. `cdecao "$IN" "$OUT"` with OUT unset: an output WAS requested and cannot be created
             elif fault == "bad-option-before-output":
                 # a command line clap must refuse (unknown option / unparsable value) with the OUTPUT path to
                 # its right: never a run that quietly goes on without the requested output
@@ -1624,6 +1649,8 @@ def stream_cli_main(seed, tier, workdir, stream):
         pool = ["threads-0", "rooms", "roomsfile", "both-rooms", "input", "doc", "track"]
         faults = r.sample(pool, nf)
         cde = r.random() < 0.45
+        if k % 9 == 4:
+            faults, cde = [], False        # an edge document (below), nothing else wrong
         if "track" in faults and not cde:
             cde = True
         c["cde"] = cde
@@ -1649,6 +1676,25 @@ def stream_cli_main(seed, tier, workdir, stream):
             if "doc" in faults:
                 what, doc = corrupt_simple(r, doc)
                 c["docfault"] = what
+            elif k % 9 == 4:
+                # documents at the edge of what the reader accepts: no course at all (then nobody can have a
+                # choice), nobody with a choice, a single participant, a course list of zero-size courses
+                e = (k // 9) % 4
+                if e == 0:
+                    doc["courses"] = []
+                    for q in doc["participants"]:
+                        q["choices"] = []
+                elif e == 1:
+                    for q in doc["participants"]:
+                        q["choices"] = []
+                elif e == 2:
+                    doc["participants"] = doc["participants"][:1]
+                    for co in doc["courses"]:
+                        co["instructors"] = [x for x in co["instructors"] if x == 0]
+                else:
+                    for co in doc["courses"]:
+                        co["num_max"] = 0; co["num_min"] = 0
+                c["edge"] = e
             c["doc"] = doc
         c["input"] = "ok"
         if "input" in faults:
@@ -1752,7 +1798,19 @@ def lines_cli_main(cases, workdir, stream, binary):
                                 case=i, stream=stream, feat=feat))
             else:
                 ok = (not to) and (not panicked) and rc in (0, 1, 65) and (wrote == (rc == 0 and c["output"]))
-                out.append(line("direct", ["C10"], ok=ok, what=f"well-formed run: exit {rc}, timeout {to}, panicked {panicked}, output file {wrote} (requested {c['output']}), stderr tail: {se[-250:]}",
+                if c["cde"] and ok:
+                    # an export from which nobody is left for the selected track is refused (data error), whatever
+                    # else the document contains
+                    try:
+                        exp = problem_of(c["doc"], c["opts"])
+                    except Exception:
+                        exp = None
+                    if exp is not None and c["track"] in (None, str(c["opts"]["track"])):
+                        nobody = len(exp[1]) == 0
+                        if nobody != (rc == 65):
+                            ok = False
+                # (C15 as well: whatever the input, the program does not panic)
+                out.append(line("direct", ["C10", "C15"], ok=ok, what=f"well-formed run: exit {rc}, timeout {to}, panicked {panicked}, output file {wrote} (requested {c['output']}), stderr tail: {se[-250:]}",
                                 case=i, stream=stream, feat=feat, nontrivial=rc in (0, 1)))
             out.append(line("corr", ["C15", "C10", "C16"], "MF", json.dumps(payload, ensure_ascii=False), "PREFIX:" + observed, case=i, stream=stream,
                             feat=["mf:" + observed.split(" ")[0]]))
